@@ -88,6 +88,29 @@ Proof.
 Qed.
 Print Assumptions C01_replace.
 
+(** every list over the widened alphabet (core operations, withColumn/withColumnRenamed/drop, fillna, replace) *)
+Theorem C01_partial_wide : forall xs input,
+  wf_frame input -> NoDup (cols input) ->
+  xs_ok gen_cfg (deco_of decorator_table) (init_df (cols input)) (cols input) xs = true ->
+  exists d', run_x gen_cfg (deco_of decorator_table) (init_df (cols input)) xs = Some d' /\
+             eval_df d' input = spec_xrun xs input.
+Proof.
+  intros xs input Hwf Hnd Hok.
+  destruct (xchain_correct gen_cfg gen_cfg_ok gen_limit_ok (deco_of decorator_table) SELECT SELECT xs
+              (init_df (cols input)) (cols input) input
+              (proj1 gen_fillna_kind) gen_composite_ok (proj2 gen_fillna_kind) gen_composite_ok
+              eq_refl Hwf (init_inv gen_cfg (cols input) Hnd) Hok) as (d' & Hr & He).
+  exists d'. split; [exact Hr|]. rewrite He. rewrite eval_init; auto.
+Qed.
+Print Assumptions C01_partial_wide.
+
+Example C01_wide_domain_nonempty :
+  xs_ok gen_cfg (deco_of decorator_table) (init_df ["a"; "b"]%string) ["a"; "b"]%string
+    [XFillna [("a"%string, VInt 0)]; XCore (UOp (OWhere (EBin Eq (ECol "a") (ELit (VInt 0)))));
+     XReplace ["b"%string] [(VInt 1, VInt 7)]; XCore (UWithColumn "c" (EBin Add (ECol "a") (ECol "b")));
+     XCore (UOp (OOrderBy [mkKey (ECol "c") false true])); XCore (UDrop ["a"%string]); XCore (UOp (OLimit 2))] = true.
+Proof. vm_compute. reflexivity. Qed.
+
 (** the domain is inhabited by a program that exercises every wrap decision *)
 Example C01_domain_nonempty :
   ops_ok gen_cfg (init_df ["a"; "b"]%string) ["a"; "b"]%string
